@@ -48,6 +48,9 @@ def cases(tier, seed):
     for j in range(3 if tier == 'quick' else 30):
         out.append(dict(gen='part', subject=KINDS[j % 3], precision='float64', regime='E', struct=['balanced', 'unbalanced'][j % 2], mode='explicit', big=[6000, 20000, 9000][j % 3],
                         sub=core.subseed('C04big', seed, j), must=j < 3))
+    # hundreds of intermediate words (guesses x words of a real attack) in batches of thousands of traces, handled by either kernel
+    for j, (name, mw) in enumerate((('snr', 1024), ('anova', 700), ('nicv', 2048)) if tier == 'quick' else (('snr', 1024), ('anova', 700), ('nicv', 2048), ('snr', 2048), ('anova', 1024), ('nicv', 513))):
+        out.append(dict(gen='part', subject=name, precision='float64', regime='E', struct='balanced', mode='explicit', manywords=mw, sub=core.subseed('C04mw', seed, j), must=True))
     rs = np.random.default_rng(core.subseed('C04r', seed))
     n_rand = 260 if tier == 'quick' else 7000
     for j in range(n_rand):
@@ -69,7 +72,7 @@ def run_case(case):
         used = np.unique(np.append(rng.integers(0, maxv + 1, int(rng.integers(1, 12))), maxv))
         declared = None
     else:
-        K = int(rng.choice([2, 3, 5, 9, 10, 16, 40])) if not case.get('big') else int(rng.choice([2, 3, 9]))
+        K = int(rng.choice([2, 3, 5, 9, 10, 16, 40])) if not (case.get('big') or case.get('manywords')) else int(rng.choice([2, 3, 9])) if case.get('big') else 9
         base = int(rng.choice([0, 0, 1, 200, 1000, 70000]))
         declared = (base + rng.permutation(2 * K)[:K]).tolist()
         nu = int(rng.integers(1, K + 1))
@@ -84,6 +87,9 @@ def run_case(case):
     if case.get('big'):
         n, W, T = int(case['big']), 1, int(rng.integers(1, 3))
         t.count('big_batch_cases')
+    if case.get('manywords'):
+        n, W, T = int(rng.choice([2100, 3000])), int(case['manywords']), 1
+        t.count('many_word_cases')
     ddt = 'int32' if (np.max(used) > 32000) else subjects.DATA_DTYPES_LUT[int(rng.integers(6))]
     if np.max(used) > np.iinfo(ddt).max:
         ddt = 'int32'
@@ -162,6 +168,10 @@ def run_case(case):
     if case.get('big'):
         sizes = [n // 2, n - n // 2]
         kseq = [[0, 1], [1, 1], [1, 0]][int(rng.integers(3))]
+    if case.get('manywords'):
+        sizes = [100, n - 100]
+        kseq = [[0, 1], [1, 1]][int(rng.integers(2))]
+        between = False
 
     def execute(sp):
         obj = subjects.make(sp)
